@@ -200,6 +200,11 @@ def RM(origin, *parts):
     return LogicalType("M", ((origin,) if origin is not None else ()) + bases, {})
 
 
+def RA(rule, **cons):
+    """Rule.annotate(rule, constraints=...): further constraints declared on top of an existing rule class"""
+    return Rule.annotate(rule, constraints=cons) if cons else rule
+
+
 def RO(origin, _name="R", **attrs):
     """class R(Rule): __origin__ = origin; <attrs>"""
     return LogicalType(_name, (Rule,), dict(__origin__=origin, **attrs))
@@ -221,6 +226,19 @@ def SC(_name="S", _base=Schema, _options=None, **fields):
     if _options is not None:
         attrs["__options__"] = _options
     return type(_base)(_name, (_base,), attrs)
+
+
+def SC3(_name="S", _base=Schema, _options=None, **fields):
+    """the same declaration spread over three levels: the grandparent annotates every field, the class in between
+    mentions none of them, the leaf re-declares only the defaults (without annotations)"""
+    top = SC("G", _base, _options, **{k: ((v[0],) if isinstance(v, tuple) else (v,)) for k, v in fields.items()})
+    mid = type(top)("M", (top,), {"__module__": __name__, "__qualname__": "M"})
+    attrs = {k: v[1] for k, v in fields.items() if isinstance(v, tuple) and len(v) > 1}
+    attrs.update(__module__=__name__, __qualname__=_name)
+    return type(top)(_name, (mid,), attrs)
+
+
+Schema3, DataClass3 = Schema, DataClass      # names of the three-level variants of a declaration (see spec.ann_expr)
 
 
 def any_of(*a):
@@ -251,3 +269,10 @@ def tt(x, t, **opts):
 
 
 __all__ = [k for k in list(globals()) if not k.startswith("_")]
+
+
+# history prefix of every exploration: an unrelated type was declared with @utype.apply earlier in the process (the flag
+# that switches validation off for instances of an applied type must stay on that type)
+@utype.apply(ge=0)
+class AppliedNat(int):
+    pass
